@@ -3,6 +3,7 @@ import StorageModel.C05.SelfW
 import StorageModel.C05.Self
 import StorageModel.C05.SchemaHist
 import StorageModel.C05.KeySize
+import StorageModel.C05.Restrict
 /-
   C05 — Link collections stay symmetric; ref-counted links agree on both sides.
 
@@ -805,6 +806,112 @@ example : rcOf ((grunHist (extSchema true) g0 (extHist ⟨.A, false⟩)).slots 1
     rcOf ((gdelete (extSchema true) (grunHist (extSchema true) g0 (extHist ⟨.A, false⟩)) ⟨.A, true⟩ 1).1.slots 1) (.B, 7) 1 = none ∧
     (gdelete (extSchema true) (grunHist (extSchema true) g0 (extHist ⟨.A, false⟩)) ⟨.A, true⟩ 1).1.ents ⟨.A, false⟩ 1 = false := by decide
 
+/-! ## Refused operations inside a transaction that carries on (C05/Restrict.lean)
+
+  The theorems above treat a failing operation as "its transaction is rolled back".  A caller may
+  tolerate a REFUSED `DeleteById` and commit.  The schema family gets a restricting fk between the
+  root stores (`RSchema.fk`), histories may contain `deleteT` (a delete whose refusal is tolerated),
+  creates with an fk value and creates through a child store that persist the parent's link field
+  (`createP`).  What the code guarantees — and the model, following its order of checks and
+  writes, proves: a delete refused by the restricting fk (or because the entity does not exist) has
+  written nothing when it returns, so symmetry and agreement of counts survive histories that
+  carry on after it.  Failures that do leave partial link writes (a link / an fk value naming a
+  missing entity) are not tolerable in the model's histories: `ROp.tolerated` is true for `deleteT`
+  only. -/
+section
+variable {K : Type} [KOrd K] [DecidableEq K]
+open Schema Restrict
+
+/-- **a refused delete leaves every link set and every count map, on both sides, exactly as it was —
+    inside the transaction, not merely after a rollback**: for every schema, every state, through
+    root or child store -/
+theorem refused_delete_changes_no_links (rs : RSchema) (r : RSt K) (x : Store) (id : K) (e : RErr)
+    (h : (rdelete rs r x id).err = some e) :
+    (rdelete rs r x id).st = r ∧
+    (∀ j ref, linksOf ((rdelete rs r x id).st.g.slots j) ref = linksOf (r.g.slots j) ref) ∧
+    (∀ j ref k, rcOf ((rdelete rs r x id).st.g.slots j) ref k = rcOf (r.g.slots j) ref k) := by
+  have := rdelete_err h
+  exact ⟨this, fun j ref => by rw [this], fun j ref k => by rw [this]⟩
+
+/-- the restricting fk does refuse: an entity of the referred root store that has a back-reference
+    cannot be deleted, through either store of its family -/
+theorem restricted_delete_refused (rs : RSchema) (r : RSt K) (x : Store) (id : K)
+    (hid : r.g.ents ⟨x.side, false⟩ id = true) (hfk : rs.fk = some x.side.other) (p : K × K) (hp : p ∈ r.idx) (hpid : p.1 = id) :
+    (rdelete rs r x id).err = some .referenced := by
+  unfold rdelete
+  have : r.idx.any (fun p => decide (p.1 = id)) = true := List.any_eq_true.mpr ⟨p, hp, by simp [hpid]⟩
+  simp [hid, hfk, this]
+
+/-- the only failures a history may carry on after are those that changed nothing -/
+theorem tolerated_refusal_changes_nothing {rs : RSchema} {r : RSt K} {op : ROp K} {e : RErr}
+    (ht : op.tolerated = true) (h : (rstep rs r op).err = some e) : (rstep rs r op).st = r :=
+  Restrict.tolerated_refusal_changes_nothing ht h
+
+theorem restrict_coherent (rs : RSchema) (h : List (List (ROp K))) : GInv rs.sc (rrunHist rs (r0 : RSt K) h).g :=
+  (rreach_hist (rs := rs) (r := (r0 : RSt K)) (reach_g0 (K := K) rs.sc) h).1
+
+/-- after any such history every declared collection is still a committed state of the two-store model -/
+theorem restrict_collection_is_two_store_model (rs : RSchema) (h : List (List (ROp K))) {j : Nat} {c : Coll}
+    (hj : rs.sc.colls[j]? = some c) (hc : ∀ sd ch, c ≠ .self sd ch) :
+    ∃ h' : List (List (Op K)), (rrunHist rs (r0 : RSt K) h).g.slots j = runHist [] h' ∧
+      (RHistVocab h → HistVocab h' ∧ histWeight h' ≤ rhistWeight h) :=
+  r_slot_reachable rs h hj hc
+
+/-- **symmetry for every schema with a restricting fk and every history, tolerated refused deletes
+    followed by further operations and a commit included** -/
+theorem restrict_links_symmetric (rs : RSchema) (h : List (List (ROp K))) {j : Nat} {ca cb : Bool}
+    (hj : rs.sc.colls[j]? = some (.plain ca cb)) (a b : K) :
+    b ∈ linksOf ((rrunHist rs (r0 : RSt K) h).g.slots j) (.A, a) ↔
+      a ∈ linksOf ((rrunHist rs (r0 : RSt K) h).g.slots j) (.B, b) := by
+  obtain ⟨h', e, _⟩ := r_slot_reachable rs h hj (by intro sd ch e; cases e)
+  rw [e]; exact links_symmetric h' a b
+
+theorem restrict_self_links_symmetric (rs : RSchema) (h : List (List (ROp K))) {j : Nat} {sd : Side} {ch : Bool}
+    (hj : rs.sc.colls[j]? = some (.self sd ch)) (a b : K) :
+    b ∈ SelfW.L ((rrunHist rs (r0 : RSt K) h).g.slots j) a ↔ a ∈ SelfW.L ((rrunHist rs (r0 : RSt K) h).g.slots j) b := by
+  obtain ⟨h', e⟩ := r_self_slot_reachable rs h hj
+  rw [e]; exact self_links_symmetric h' a b
+
+/-- **both sides hold the same positive count** after every such history inside the vocabulary -/
+theorem restrict_rc_agree (rs : RSchema) (h : List (List (ROp K))) (hv : RHistVocab h) (hw : rhistWeight h < 2147483648)
+    {j : Nat} {ca cb : Bool} (hj : rs.sc.colls[j]? = some (.rc ca cb)) (a b : K) :
+    rcOf ((rrunHist rs (r0 : RSt K) h).g.slots j) (.A, a) b = rcOf ((rrunHist rs (r0 : RSt K) h).g.slots j) (.B, b) a ∧
+    ∀ c, rcOf ((rrunHist rs (r0 : RSt K) h).g.slots j) (.A, a) b = some c → 0 < c ∧ c < 2147483648 := by
+  obtain ⟨h', e, p⟩ := r_slot_reachable rs h hj (by intro sd ch e; cases e)
+  rw [e]; exact rc_agree h' (p hv).1 (by have := (p hv).2; omega) a b
+
+end
+
+/-- non-vacuity: employees-like store A (fk `ref` to B) with a plain and a ref-counted collection to B;
+    B.7 is linked with A.1 and referenced by it: the delete of B.7 is refused (through root and child
+    store), the transaction carries on and commits, both sides still list each other; once the
+    referrer is gone the delete succeeds and unlinks. -/
+def fkSchema : Restrict.RSchema := { sc := { colls := [.plain false false, .rc false true] }, fk := some .A }
+
+open Schema Restrict in
+def fkHist : List (List (ROp Nat)) :=
+  [[.g (.create ⟨.B, true⟩ 7 false none), .createRef 1 false (some (0, [7])) 7, .g (.count 1 (.incr .A 1 7))],
+   [.deleteT ⟨.B, false⟩ 7, .deleteT ⟨.B, true⟩ 7, .g (.create ⟨.A, false⟩ 2 false none), .g (.link 0 (.addLink .B 7 2))]]
+
+open Schema Restrict in
+example : (rdelete fkSchema (rrunHist fkSchema r0 fkHist) ⟨.B, false⟩ 7).err = some .referenced ∧
+    linksOf ((rrunHist fkSchema r0 fkHist).g.slots 0) (.B, 7) = [1, 2] ∧
+    linksOf ((rrunHist fkSchema r0 fkHist).g.slots 0) (.A, 1) = [7] ∧
+    rcOf ((rrunHist fkSchema r0 fkHist).g.slots 1) (.B, 7) 1 = some 1 ∧
+    (rrunHist fkSchema r0 fkHist).g.ents ⟨.A, false⟩ 2 = true := by decide
+open Schema Restrict in
+example : let r := rrunHist fkSchema r0 (fkHist ++ [[.g (.delete ⟨.A, false⟩ 1), .deleteT ⟨.B, true⟩ 7]])
+    r.g.ents ⟨.B, false⟩ 7 = false ∧ linksOf (r.g.slots 0) (.A, 2) = [] ∧ r.idx = [] := by decide
+-- a create through the child store over an existing parent with links leaves exactly the requested set
+open Schema Restrict in
+def cpHist : List (List (ROp Nat)) :=
+  [[.g (.create ⟨.B, false⟩ 7 false none), .g (.create ⟨.B, false⟩ 8 false none), .g (.create ⟨.A, false⟩ 1 false (some (0, [8, 7])))],
+   [.createP ⟨.A, true⟩ 1 false 0 [8]]]
+open Schema Restrict in
+example : let r := rrunHist fkSchema (r0 : RSt Nat) cpHist
+    linksOf (r.g.slots 0) (.A, 1) = [8] ∧ linksOf (r.g.slots 0) (.B, 7) = [] ∧ linksOf (r.g.slots 0) (.B, 8) = [1] ∧
+      r.g.ents ⟨.A, true⟩ 1 = true := by decide
+
 end StorageModel.Properties.C05
 
 #print axioms StorageModel.Properties.C05.links_symmetric
@@ -829,3 +936,6 @@ end StorageModel.Properties.C05
 #print axioms StorageModel.Properties.C05.schema_collection_refines_spec
 #print axioms StorageModel.Properties.C05.schema_naming_irrelevant
 #print axioms StorageModel.Properties.C05.keysize_small_ids_unchanged
+#print axioms StorageModel.Properties.C05.refused_delete_changes_no_links
+#print axioms StorageModel.Properties.C05.restrict_links_symmetric
+#print axioms StorageModel.Properties.C05.restrict_rc_agree
